@@ -8,7 +8,7 @@
 (b) spec/Cases.tla: `sel == lit` for selectors of every scalar kind (all widths, named types, pointers, interface,
     json.Number) and non-scalars, with boundary values, x the same literal universe rendered bare / double-quoted /
     back-quoted; the harness replays on the real evaluator."""
-import itertools, json, os, random, sys
+import itertools, json, os, random, re, sys
 sys.path.insert(0, os.path.dirname(os.path.abspath(__file__)))
 import vlib
 from vlib import match
@@ -24,6 +24,10 @@ BOUNDARY = ["9223372036854775807", "9223372036854775808", "-9223372036854775808"
             "16777216", "16777217", "16777218", "16777217.000000001", "1.0000000596046448", "1.00000005960464477539062", "1.000000059604644775390625", "1.0000000596046447753906251",
             "1.0000001", "1.00000012", "0x1p0", "0x1p-2", "0x1.8p1", "0x1p", "0X1P+3", "inf", "+Inf", "-inf", "Infinity", "infinit", "nan", "NaN", "+nan", "-0.0", "0.0", ".5", "5.", ".", "1e", "1e+", "--1", "+-1", "1.2.3",
             "true", "false", "TRUE", "True", "tRUE", "FALSE", "False", "yes", "no", "on", "t", "f", "T", "F", "1", "0", "2", "", " 1", "1 ", " ", "héllo", "a\"b", "a\\b", "a\nb", "\t", "`", "/usr/bin", "/", "s", "01", "0x1", "a\x00b"]
+
+
+def limbs(val):
+    return vlib.limbs_to_int(val["v"])
 
 
 def texts(maxlen):
@@ -70,7 +74,13 @@ def main():
     rep = ["i7", "u7", "f7", "g7", "bt", "s1", "j7", "i15", "u17", "f1", "g1", "bf", "s0", "nil", "l", "pi", "any1", "ni", "nf", "ng"]
     atoms = []
     for k in keys:
-        own = vlib.own_text(next(e["val"] for e in doc["v"] if e["key"]["v"] == k))
+        val = next(e["val"] for e in doc["v"] if e["key"]["v"] == k)
+        own = vlib.own_text(val)
+        # literals just outside the field's width: valid 64-bit literals, so the comparison is false, not an error
+        m = re.search(r"(\d+)$", val.get("t", "")) if val["k"] in ("int", "uint") else None
+        if m and int(m.group(1)) < 64:
+            b = int(m.group(1))
+            own += [str(2 ** (b - 1)), str(-2 ** (b - 1) - 1), str(2 ** b), str(2 ** b + limbs(val)), str(limbs(val) - 2 ** b)]
         lits = list(BOUNDARY) + own + (short if k in rep else [])
         if quick and k not in rep:
             lits = rnd.sample(BOUNDARY, 40) + own
